@@ -23,6 +23,7 @@ import "fmt"
 import "io"
 import "math"
 import "os"
+import "strconv"
 
 /* -------------------------------------------------------------------------- */
 
@@ -208,6 +209,56 @@ func (obj sortIntConstInt) Swap(i, j int) {
 
 func (obj sortIntConstInt) Less(i, j int) bool {
   return obj.a[i] < obj.a[j]
+}
+
+/* -------------------------------------------------------------------------- */
+
+// Parsers for the entries of table files (Import), one per stored type.
+// Integer entries are parsed as integers so that values beyond 2^53 (up to
+// the bounds of int64) are read back exactly and entries that do not fit
+// the stored type are rejected; entries in float notation ("1e3", "2.0")
+// are accepted as before.
+func parseTableInt(str string, bitSize int) (int64, error) {
+  if v, err := strconv.ParseInt(str, 10, bitSize); err == nil {
+    return v, nil
+  } else
+  if e, ok := err.(*strconv.NumError); ok && e.Err == strconv.ErrRange {
+    return 0, err
+  }
+  v, err := strconv.ParseFloat(str, 64)
+  if err != nil {
+    return 0, err
+  }
+  if math.IsNaN(v) || v < -math.Ldexp(1.0, bitSize-1) || v >= math.Ldexp(1.0, bitSize-1) {
+    return 0, &strconv.NumError{Func: "ParseInt", Num: str, Err: strconv.ErrRange}
+  }
+  return int64(v), nil
+}
+func parse_int(str string) (int, error) {
+  v, err := parseTableInt(str, strconv.IntSize)
+  return int(v), err
+}
+func parse_int8(str string) (int8, error) {
+  v, err := parseTableInt(str, 8)
+  return int8(v), err
+}
+func parse_int16(str string) (int16, error) {
+  v, err := parseTableInt(str, 16)
+  return int16(v), err
+}
+func parse_int32(str string) (int32, error) {
+  v, err := parseTableInt(str, 32)
+  return int32(v), err
+}
+func parse_int64(str string) (int64, error) {
+  return parseTableInt(str, 64)
+}
+func parse_float32(str string) (float32, error) {
+  v, err := strconv.ParseFloat(str, 64)
+  return float32(v), err
+}
+func parse_float64(str string) (float64, error) {
+  return strconv.ParseFloat(str, 64)
 }
 
 /* -------------------------------------------------------------------------- */
